@@ -5,3 +5,6 @@ package tally
 // verifYield marks a scheduling point for the verification harness. Without
 // the `verif` build tag it is empty and inlined away.
 func verifYield(point int) {}
+
+// verifYieldKey is verifYield for points that visit a registry entry.
+func verifYieldKey(point int, key string) {}
